@@ -299,7 +299,7 @@ def run(tier, seed):
     # traces sampled from (B)
     merged = os.path.join(vlib.sub("traces"), "replay.all.side")
     concat([s for s in sides if os.path.exists(s)], merged)
-    bfiles = ic.split_side(merged, "c07replay")
+    bfiles = tc.split_side(merged, "c07replay")
     cfg = tc.trace_cfg()
     tr = []
     for source, files in (("random-histories", rfiles), ("replayed-scenarios", bfiles)):
@@ -420,7 +420,7 @@ def replay(path):
         if out.errors:
             raise vlib.Inconclusive(str(out.errors))
         bad = bool(out.crashes or out.timeouts)
-        files = ic.split_side(side, "one")
+        files = tc.split_side(side, "one")
     elif scenario is not None:
         scen = os.path.join(vlib.sub("scn"), "one.ndjson")
         sc = dict(scenario)
@@ -435,7 +435,7 @@ def replay(path):
         if out.errors:
             raise vlib.Inconclusive(str(out.errors))
         bad = bool(out.failures or out.crashes or out.timeouts)
-        files = ic.split_side(side, "one")
+        files = tc.split_side(side, "one")
     else:
         raise vlib.Inconclusive("replay file without scenario, case or trace")
     if "transfer" in files:
